@@ -40,6 +40,7 @@ class T(Base):
     g = sa.Column(sa.String)
     dd = sa.Column(sa.Date)
     m = sa.Column(sa.Numeric(5, 2))
+    iv = sa.Column(sa.Interval)
     # a column whose name is not an attribute of the entity (unknown to the ORM, known to Core)
     hidden_ = sa.Column("hidden_col", sa.Integer)
 
